@@ -81,6 +81,15 @@ func Use(x *lib.T) {
 	x.F = 3 // want IMM01
 	_ = lib.PF() // want PKGO02
 }
+`}, {Name: "q_test.go", Src: `package q
+
+import "ex.com/m/lib"
+
+// a test file inside a directory that exclude-paths may name: both options apply to it
+func useInTest(x *lib.T) {
+	x.F = 5 // want IMM01
+	_ = lib.T{} // want CTOR01
+}
 `}}},
 		{Path: "ex.com/m/testdata/p", Dir: "testdata/p", Files: []prog.File{{Name: "t.go", Src: `package p
 
@@ -89,6 +98,14 @@ import "ex.com/m/lib"
 func Use(x *lib.T) {
 	x.F = 4 // want IMM01
 	_ = lib.T{} // want CTOR01
+}
+`}, {Name: "t_test.go", Src: `package p
+
+import "ex.com/m/lib"
+
+func useInTest(x *lib.T) {
+	x.F = 6 // want IMM01
+	_ = lib.PF() // want PKGO02
 }
 `}}},
 	}}
@@ -492,7 +509,7 @@ func C18(tier common.Tier) int {
 	for _, k := range grid.order {
 		nRuns += len(grid.cells[k].Drivers)
 	}
-	run.SetRule("Part 1, finite grid on the real executables, enumerated completely: a probe module (regular file with IMM01, CTOR01, TONL02, PKGO02 on distinct lines; in-package _test.go file; package in gen/q; package in testdata/p named on the command line) is analysed by `gogreement -json` / `go vet -vettool=gogreement -json` (and both text modes on the 3x3 class grid) under every cell of: per option {flag absent, flag empty (bare for the boolean), flag value} x {variable unset, empty, value} over all listed boolean spellings and list shapes (blanks, empty items, mixed case, single comma, near-miss codes); all pairs of options x 9 class states each; all three options sourced from flag/env/both; 18 hostile environment strings per variable (invalid UTF-8, 20 kB, control characters, format verbs, flag look-alikes, trailing newlines). Each run's diagnostic set (file, line, code) must equal the set computed from the reference resolver (flag if given, else variable if set, else default; split/trim/drop-empty/upper-case; boolean table), exit status must be 0 (json) / 0|3 (text) / 0|1 (go vet text), no panic/internal error text. Part 2, exhaustive bounded strings in-process: every string up to the length bound over {a,A,1,comma,space,tab,t,U+00FF} (and {y,e,s,o,n,N,space,0} for the boolean) as the value of each GOGREEMENT_* variable and as the value of each flag, through config.FromEnv and CreateFlagSet+Parse+ParseFlagsFromFlagSet in six call shapes, compared field by field with the reference; a panic is a counterexample. A case is non-trivial when the effective configuration differs from the default.",
+	run.SetRule("Part 1, finite grid on the real executables, enumerated completely: a probe module (regular file with IMM01, CTOR01, TONL02, PKGO02 on distinct lines; in-package _test.go file; packages in gen/q and testdata/p (named on the command line), each with a _test.go file of its own) is analysed by `gogreement -json` / `go vet -vettool=gogreement -json` (and both text modes on the 3x3 class grid) under every cell of: per option {flag absent, flag empty (bare for the boolean), flag value} x {variable unset, empty, value} over all listed boolean spellings and list shapes (blanks, empty items, mixed case, single comma, near-miss codes); all pairs of options x 9 class states each; all three options sourced from flag/env/both; 18 hostile environment strings per variable (invalid UTF-8, 20 kB, control characters, format verbs, flag look-alikes, trailing newlines). Each run's diagnostic set (file, line, code) must equal the set computed from the reference resolver (flag if given, else variable if set, else default; split/trim/drop-empty/upper-case; boolean table), exit status must be 0 (json) / 0|3 (text) / 0|1 (go vet text), no panic/internal error text. Part 2, exhaustive bounded strings in-process: every string up to the length bound over {a,A,1,comma,space,tab,t,U+00FF} (and {y,e,s,o,n,N,space,0} for the boolean) as the value of each GOGREEMENT_* variable and as the value of each flag, through config.FromEnv and CreateFlagSet+Parse+ParseFlagsFromFlagSet in six call shapes, compared field by field with the reference; a panic is a counterexample. A case is non-trivial when the effective configuration differs from the default.",
 		fmt.Sprintf("%d grid cells, %d executions of the real binary; parser sweep: all strings of length <= %d", len(grid.order), nRuns, sweepLen))
 	run.Assume("package flag, go vet's flag forwarding, go/packages and the x/tools drivers are trusted",
 		"GOGREEMENT_ENV_ONLY is unset everywhere",
@@ -531,7 +548,7 @@ func C18(tier common.Tier) int {
 		opt[c18Scan].Flag = c18Src{Set: true, Bare: true}
 		opt[c18Paths].Flag = c18Src{Set: true, Val: ""}
 		eff, _, _ := c18Resolve(opt)
-		if len(c18Expected(eff, plants)) != len(plants) || len(plants) != 11 {
+		if len(c18Expected(eff, plants)) != len(plants) || len(plants) != 15 {
 			common.Fatalf("C18: probe/reference mismatch: %d planted, %d expected under all-on", len(plants), len(c18Expected(eff, plants)))
 		}
 	}
